@@ -21,7 +21,7 @@ from ..stdin import PipeStdin
 ID = "C09"
 LEVEL = "exploration"
 TIERS = {"quick": {"shards": 16, "budget_s": 120, "audios": 40},
-         "thorough": {"shards": 16, "budget_s": 900, "audios": 1500}}
+         "thorough": {"shards": 16, "budget_s": 900, "audios": 500}}
 CONTAINERS = ("bytes", "region_fn", "region_method", "wav", "wav_lazy", "wav_path_obj", "raw", "raw_lazy", "raw_fmt_noext",
               "buffer_obj", "raw_obj", "wave_obj", "reader", "stdin_pipe")
 SPELLINGS = ("long", "short", "both_wrong_short", "validator_long", "validator_both")
